@@ -211,6 +211,92 @@ def gen_sequence(rng, sid, maxlen):
     return {'id': sid, 'init': init, 'no_initialize': True, 'msgs': msgs, 'client': client}
 
 
+# ---- feature requests on a document whose parse results are STALE -------------------------------------------------
+# textDocument/didChange replaces the contents in the cache synchronously; module, parse errors, line count, builtin
+# positions are replaced later by the file-lint and hover workers.  A request handled in between sees new contents
+# with the parse results of the previous contents.  Every feature request is sent in that window, for every kind of
+# transition of the document (shrinks / is emptied / breaks / is repaired / grows), in both directions.  The window is
+# held open by changes of other, large documents queued just before (the workers process their jobs in order).
+def big_doc(tag, n):
+    return 'package big%s\n\nimport rego.v1\n\n' % tag + ''.join(
+        'rule_%d if {\n\tsome x in input.xs\n\tcount(x) > %d\n\tstartswith(x, "a%d")\n}\n\n' % (i, i, i) for i in range(n))
+
+
+STALE_VALID_LONG = ('# METADATA\n# title: d\npackage d\n\nimport rego.v1\n\nimport data.a\nimport data.b\nimport data.c\n\n'
+                    '# comment one\n# comment two\nallow if {\n\tsome x in input.xs\n\tcount(x) > 1\n}\n\n'
+                    'deny contains msg if {\n\tnot allow\n\tmsg := sprintf("%v", [concat(",", input.ys)])\n}\n\n'
+                    'f(x) := y if {\n\ty := regex.match("a.*", x)\n}\n')
+STALE_DOCS = {
+    'valid_long': STALE_VALID_LONG,
+    'broken_low': STALE_VALID_LONG + '\nlast := := 1\n',                    # parse error far below the first line
+    'broken_mid': STALE_VALID_LONG.replace('deny contains msg if {', 'deny contains msg if {{', 1),
+    'valid_short': 'package d\n\nx := 1\n',
+    'broken_short': 'package d\n\nx := := 1\n',
+    'one_line': 'package d',
+    'empty': '',
+}
+STALE_TRANSITIONS = [('broken_low', 'valid_short'), ('broken_low', 'empty'), ('broken_low', 'broken_short'),
+                     ('broken_mid', 'one_line'), ('valid_long', 'broken_low'), ('valid_long', 'empty'),
+                     ('valid_long', 'valid_short'), ('valid_long', 'broken_mid'), ('valid_short', 'broken_short')]
+STALE_FEATURES = ['textDocument/inlayHint', 'textDocument/hover', 'textDocument/foldingRange', 'textDocument/documentSymbol',
+                  'textDocument/codeLens', 'textDocument/completion', 'textDocument/codeAction', 'textDocument/formatting',
+                  'textDocument/definition']
+
+
+def feature_request(rng, method, u, nlines):
+    td = {'textDocument': {'uri': u}}
+    p = {'line': rng.below(max(nlines, 1) + 2), 'character': rng.below(12)}
+    whole = {'start': {'line': 0, 'character': 0}, 'end': {'line': nlines + 5, 'character': 0}}
+    if method in ('textDocument/hover', 'textDocument/definition'):
+        prm = dict(td, position=p)
+    elif method == 'textDocument/completion':
+        prm = dict(td, position=p, context={'triggerKind': 1})
+    elif method == 'textDocument/inlayHint':
+        prm = dict(td, range=whole)
+    elif method == 'textDocument/codeAction':
+        prm = dict(td, range=whole, context={'diagnostics': []})
+    elif method == 'textDocument/formatting':
+        prm = dict(td, options={'tabSize': 4, 'insertSpaces': False})
+    else:
+        prm = td
+    return {'method': method, 'params': prm, 'facts': []}
+
+
+def stale_sequences(rng, quick, nbig=None, size=None):
+    seqs = []
+    nbig = nbig or (1 if quick else 3)
+    size = size or (30 if quick else 200)
+    for a, b in STALE_TRANSITIONS:
+        u = uri('d.rego')
+        init = {'d.rego': STALE_DOCS[a], 'a.rego': DOCS[0], 'b.rego': DOCS[1]}
+        for k in range(nbig):
+            init['big%d.rego' % k] = big_doc(str(k), 3)
+        msgs = [{'method': 'initialize', 'params': {'rootUri': '${ROOT}', 'clientInfo': {'name': 'verif'}}, 'facts': []},
+                {'method': 'initialized', 'params': {}, 'notify': True, 'facts': []},
+                {'method': 'textDocument/didOpen', 'notify': True, 'facts': [],
+                 'params': {'textDocument': {'uri': u, 'text': STALE_DOCS[a], 'languageId': 'rego', 'version': 1}}}]
+        version = 2
+        for rnd, (frm, to) in enumerate([(a, b), (b, a)]):
+            feats = rng.shuffle(STALE_FEATURES)
+            first = True
+            for k in range(nbig):
+                m = {'method': 'textDocument/didChange', 'notify': True, 'facts': ['changes_nonempty'],
+                     'params': {'textDocument': {'uri': uri('big%d.rego' % k), 'version': version},
+                                'contentChanges': [{'text': big_doc('%d_%d' % (k, rnd), size)}]}}
+                if first:
+                    m['wait'] = 'workers'        # the parse results of `frm` are in the cache
+                    first = False
+                msgs.append(m)
+            version += 1
+            msgs.append({'method': 'textDocument/didChange', 'notify': True, 'facts': ['changes_nonempty'],
+                         'params': {'textDocument': {'uri': u, 'version': version}, 'contentChanges': [{'text': STALE_DOCS[to]}]}})
+            nl = STALE_DOCS[frm].count('\n')
+            for f in feats:
+                msgs.append(feature_request(rng, f, u, nl))
+        seqs.append({'id': 0, 'init': init, 'no_initialize': True, 'msgs': msgs, 'client': 'verif', 'tag': 'stale:%s->%s' % (a, b)})
+    return seqs
+
+
 def corpus_seqs():
     d = os.path.join(vlib.VERIF, 'corpus', 'C17')
     out = []
@@ -385,10 +471,15 @@ def run(ctx):
         for _ in range(n):
             maxlen = 30 if rng.below(3) != 0 else 8
             seqs.append(gen_sequence(rng, 0, maxlen))
+        stale = stale_sequences(rng, quick)
+        bs = 20 if quick else 24
+        nb = max(1, (len(seqs) + bs - 1) // bs)
+        batches = [seqs[i:i + bs] for i in range(0, len(seqs), bs)]
+        for i, s in enumerate(stale):         # spread over the batches (the sequences of a batch run in parallel)
+            batches[i % nb].append(s)
+        seqs += stale
         for i, s in enumerate(seqs):
             s['id'] = i
-        bs = 20 if quick else 24
-        batches = [seqs[i:i + bs] for i in range(0, len(seqs), bs)]
     by_id = {s['id']: s for s in seqs}
     all_cases, n_msgs, classes, methods = [], 0, {}, {}
     crashes, races, errors = [], {}, []
@@ -475,7 +566,8 @@ def run(ctx):
         'distinct_nontrivial': distinct,
         'rule': 'a case is one delivered message (or injected config-watcher event) of a modelled method; distinct = distinct '
                 '(method, guard facts) pairs compared with the skeletons',
-        'sequences': len(seqs), 'sequences_completed_idle': n_ok, 'messages': n_msgs, 'batches': len(batches),
+        'sequences': len(seqs), 'stale_parse_state_sequences': sum(1 for s in seqs if str(s.get('tag', '')).startswith('stale:')),
+        'sequences_completed_idle': n_ok, 'messages': n_msgs, 'batches': len(batches),
         'sequences_by_length_bucket': lens, 'messages_by_method': methods, 'answers_by_class': classes,
         'crashing_batches': len(crashes), 'sequences_with_timeout_or_not_idle': len(errors), 'distinct_race_reports': len(races),
         'mismatch_guard_model': len(r1),
